@@ -692,3 +692,503 @@ def _list_feeding(ctx: Context, cfg, node, expr):
                     and len(c.args) == 1 and _def_ids(T, cfg, n, it.id) == [defs[0][0]]):
                 out.append((n, T.of(cfg, n, c.args[0])))
     return out
+
+
+# ====================================================================== C17.G1
+def _chain(ctx: Context, cfg, want_fields):
+    """Unpack sites of a decoder as a contiguous chain of constant slices of one parameter.
+
+    Returns (model | None, problems).  model: data parameter, sites sorted by offset with lo/hi/size, the concatenated
+    field codes, the end offset, and ``field(i)`` = term of the i-th header field.
+    """
+    sites = _unpack_sites(ctx, cfg)
+    probs = []
+    rows = []
+    for s in sites:
+        sl = _slice(s["buf"])
+        fl = _fields(s["fmt"])
+        if sl is None or fl is None or s["off"] is not None:
+            probs.append((s["node"], f"`{_u(s['call'])[:60]}`: buffer is not a plain slice / format has native alignment"))
+            continue
+        base, lo, hi = sl
+        lo_i = 0 if lo is None else _ci(lo)
+        hi_i = _ci(hi)
+        if base[0] != "param" or lo_i is None or hi_i is None:
+            probs.append((s["node"], f"`{_u(s['call'])[:60]}`: slice {show(s['buf'], 60)} is not <parameter>[const:const]"))
+            continue
+        rows.append(dict(s, base=base, lo=lo_i, hi=hi_i, size=_size(s["fmt"]), fl=fl))
+    rows.sort(key=lambda r: r["lo"])
+    if probs or not rows or len({r["base"] for r in rows}) != 1:
+        return None, probs or [(cfg.entry, "no unpack site on a slice of one parameter")]
+    fields = []
+    for r in rows:
+        for i, c in enumerate(x for x in r["fl"][1] if x != "x"):
+            fields.append(("sub", r["term"], ("const", i)))
+    model = {
+        "rows": rows, "data": rows[0]["base"], "codes": tuple(c for r in rows for c in r["fl"][1]),
+        "orders": {r["fl"][0] for r in rows}, "end": rows[-1]["hi"], "fields": fields,
+    }
+    return model, probs
+
+
+def _check_chain(ctx: Context, f, model, want, what: str) -> bool:
+    """Widths equal calcsize, slices contiguous from 0, field codes as the frozen layout."""
+    ck = ctx.ck
+    R = "C17.G1"
+    ok_all = True
+    pos = 0
+    for r in model["rows"]:
+        ok = r["hi"] - r["lo"] == r["size"]
+        ok_all &= ck.check(R, ok, f"{f.name}: unpack {r['fmt']} ({r['size']} bytes) reads the slice [{r['lo']}:{r['hi']}]",
+                           f"{ctx.fkey(f)}:unpack-width:{r['fmt']}",
+                           f"{f.name}: `{_u(r['call'])[:70]}` unpacks {r['size']} bytes ({r['fmt']}) from a slice of {r['hi'] - r['lo']} bytes - struct.error on every PDU",
+                           ctx.loc(f, r["node"]))
+        ok = r["lo"] == pos
+        ok_all &= ck.check(R, ok, f"{f.name}: the {r['fmt']} field group starts at offset {pos}, right after the previous one",
+                           f"{ctx.fkey(f)}:unpack-offset:{r['fmt']}", f"{f.name}: {r['fmt']} is read at offset {r['lo']}, the previous field ends at {pos}", ctx.loc(f, r["node"]))
+        pos = r["hi"]
+    ok = model["orders"] == {want[0]} and model["codes"] == want[1]
+    ok_all &= ck.check(R, ok, f"{f.name}: header fields are {want[0]}{''.join(want[1])} ({what})", f"{ctx.fkey(f)}:layout",
+                       f"{f.name}: header is unpacked as {sorted(model['orders'])}{model['codes']}, HAP-BLE says {want[0]}{''.join(want[1])}", f.loc())
+    return ok_all
+
+
+def _ble_layout(ctx: Context, report: bool):
+    """Model of pdu.decode_pdu / decode_pdu_continuation shared by G1 (reports) and G2 (uses positions)."""
+    ck = ctx.ck
+    R = "C17.G1"
+    T = ctx.terms
+    out = {}
+    # ---------------- first fragment decoder
+    f = ctx.func(f"{BLE_PDU}.decode_pdu")
+    cfg = ctx.cfg(f.qualname)
+    want = (SPEC.LITTLE, SPEC.BLE_RESPONSE_HEADER[1] + SPEC.BLE_BODY_LENGTH[1])
+    model, probs = _chain(ctx, cfg, want)
+    if model is None:
+        if report:
+            for n, why in probs:
+                ck.unknown(R, f"decode_pdu: {why}", ctx.loc(f, n))
+        return None
+    if report:
+        ck.require_min(R, "decode_pdu: unpack sites", len(model["rows"]), 2)
+        if not _check_chain(ctx, f, model, want, "control, tid, status + body length"):
+            return None
+    elif not (model["codes"] == want[1] and all(r["hi"] - r["lo"] == r["size"] for r in model["rows"])):
+        return None
+    D = model["data"]
+    i_tid = SPEC.BLE_RESPONSE_FIELDS.index("tid")
+    i_st = SPEC.BLE_RESPONSE_FIELDS.index("status")
+    tid_t, st_t, len_t = model["fields"][i_tid], model["fields"][i_st], model["fields"][len(SPEC.BLE_RESPONSE_FIELDS)]
+    STATUS_CLS = f"{BLE_PDU}.PDUStatus"
+
+    def is_status(t):
+        return _is_call_to(t, STATUS_CLS) and len(t[2]) == 1 and strip_sites(t[2][0]) == strip_sites(st_t)
+
+    def is_len(t):
+        return strip_sites(t) == strip_sites(len_t)
+
+    def is_body(t):
+        s = _slice(t)
+        return s is not None and s[0] == D and s[2] is None and _ci(s[1]) is not None
+
+    rets = [n for n in cfg.nodes if n.kind == "return"]
+    pos = None
+    full = []
+    for r in rets:
+        t = T.of(cfg, r, r.exprs[0]) if r.exprs else ("const", None)
+        if t[0] != "tuple" or len(t[1]) != 3:
+            if report:
+                ck.unknown(R, f"decode_pdu: return value {show(t, 80)} is not a (status, expected_length, body) triple", ctx.loc(f, r))
+            return None
+        el = t[1]
+        ist = [i for i, x in enumerate(el) if is_status(x)]
+        ibody = [i for i, x in enumerate(el) if is_body(x)]
+        ilen = [i for i, x in enumerate(el) if is_len(x)]
+        if len(ist) == 1 and len(ibody) == 1 and len(ilen) == 1:
+            p = (ist[0], ilen[0], ibody[0])
+            if pos is not None and pos != p:
+                if report:
+                    ck.unknown(R, "decode_pdu: returns disagree on the position of status / length / body", ctx.loc(f, r))
+                return None
+            pos = p
+            full.append((r, _ci(_slice(el[ibody[0]])[1])))
+    if pos is None:
+        if report:
+            ck.unknown(R, "decode_pdu: no return of (PDUStatus(status byte), unpacked length, data[k:])", f.loc())
+        return None
+    for r in rets:
+        el = T.of(cfg, r, r.exprs[0])[1]
+        short = is_status(el[pos[0]]) and el[pos[1]] == ("const", 0) and el[pos[2]] == ("const", b"")
+        if r not in [x[0] for x in full] and not short:
+            if report:
+                ck.unknown(R, f"decode_pdu: return {show(('tuple', el), 100)} is neither the full triple nor (status, 0, b'')", ctx.loc(f, r))
+            return None
+    if report:
+        for r, k in full:
+            ck.check(R, k == model["end"], f"decode_pdu: the body starts at offset {model['end']}, right after the length field",
+                     f"{ctx.fkey(f)}:body-offset", f"decode_pdu: the body is data[{k}:] but the header and length field end at {model['end']}", ctx.loc(f, r))
+    # tid gate
+    exp = _expected_param(ctx, cfg, tid_t, D)
+    if exp is None:
+        if report:
+            ctx.must_pass(R, cfg, cfg.exit, "tid test [received tid == expected tid]", [],
+                          desc="decode_pdu: every normal exit passes the transaction-id test on its equal outcome")
+        return None
+    if report:
+        _tid_gate(ctx, f, cfg, tid_t, exp)
+    out["first"] = {"f": f, "data": D[1], "tid": exp, "pos": pos}
+
+    # ---------------- continuation decoder
+    g = ctx.func(f"{BLE_PDU}.decode_pdu_continuation")
+    gcfg = ctx.cfg(g.qualname)
+    want2 = SPEC.BLE_CONTINUATION_HEADER
+    m2, probs = _chain(ctx, gcfg, want2)
+    if m2 is None:
+        if report:
+            for n, why in probs:
+                ck.unknown(R, f"decode_pdu_continuation: {why}", ctx.loc(g, n))
+        return None
+    if report:
+        ck.require_min(R, "decode_pdu_continuation: unpack sites", len(m2["rows"]), 1)
+        if not _check_chain(ctx, g, m2, want2, "control, tid"):
+            return None
+    elif not (m2["codes"] == want2[1] and all(r["hi"] - r["lo"] == r["size"] for r in m2["rows"])):
+        return None
+    D2 = m2["data"]
+    ctl2 = m2["fields"][SPEC.BLE_CONTINUATION_FIELDS.index("control")]
+    tid2 = m2["fields"][SPEC.BLE_CONTINUATION_FIELDS.index("tid")]
+    for r in [n for n in gcfg.nodes if n.kind == "return"]:
+        t = T.of(gcfg, r, r.exprs[0]) if r.exprs else ("const", None)
+        s = _slice(t)
+        if s is None or s[0] != D2 or s[2] is not None or _ci(s[1]) is None:
+            if report:
+                ck.unknown(R, f"decode_pdu_continuation: return value {show(t, 80)} is not data[k:]", ctx.loc(g, r))
+            return None
+        if report:
+            ck.check(R, _ci(s[1]) == m2["end"], f"decode_pdu_continuation: the body starts at offset {m2['end']}, right after the header",
+                     f"{ctx.fkey(g)}:body-offset", f"decode_pdu_continuation: returns data[{_ci(s[1])}:] but the header ends at {m2['end']}", ctx.loc(g, r))
+    exp2 = _expected_param(ctx, gcfg, tid2, D2)
+    if report:
+        # continuation flag
+        sc = strip_sites(ctl2)
+        gate, seen_masks = [], []
+        for n in gcfg.nodes:
+            if n.kind != "test":
+                continue
+            t = strip_sites(T.of(gcfg, n, n.exprs[0]))
+
+            def band(x):
+                if x[0] == "binop" and x[1] == "BitAnd":
+                    if x[2] == sc and _ci(x[3]) is not None:
+                        return _ci(x[3])
+                    if x[3] == sc and _ci(x[2]) is not None:
+                        return _ci(x[2])
+                return None
+
+            mk, lab = band(t), "T"
+            c = _cmp(t)
+            if mk is None and c is not None and c[0] in ("Eq", "NotEq"):
+                for a, b in ((c[1], c[2]), (c[2], c[1])):
+                    if band(a) is not None and _ci(b) is not None:
+                        mk = band(a)
+                        if _ci(b) == mk:
+                            lab = "T" if c[0] == "Eq" else "F"
+                        elif _ci(b) == 0:
+                            lab = "F" if c[0] == "Eq" else "T"
+                        else:
+                            mk = None
+            if mk is None:
+                continue
+            seen_masks.append(mk)
+            if mk == SPEC.CONTROL_FRAGMENT_BIT:
+                gate += ctx.edges(gcfg, n, lab)
+                for e in ctx.edges(gcfg, n, "F" if lab == "T" else "T"):
+                    ck.check(R, _raises_only(gcfg, e), "decode_pdu_continuation: a fragment without the continuation flag can only raise",
+                             f"{ctx.fkey(g)}:flag-reject-falls-through", "decode_pdu_continuation: with the flag missing a normal exit is reachable",
+                             ctx.loc(g, n), gcfg.render_path(gcfg.find_path(e[1], gcfg.exit.id) or []))
+        extra = f" (control is tested with mask(s) {[hex(x) for x in seen_masks]})" if seen_masks and not gate else ""
+        ctx.must_pass(R, gcfg, gcfg.exit, f"continuation-flag test [control & 0x80 set]{extra}", gate,
+                      desc="decode_pdu_continuation: every normal exit passes `control & 0x80` on its set outcome")
+        if exp2 is None:
+            ctx.must_pass(R, gcfg, gcfg.exit, "tid test [received tid == expected tid]", [],
+                          desc="decode_pdu_continuation: every normal exit passes the transaction-id test on its equal outcome")
+        else:
+            _tid_gate(ctx, g, gcfg, tid2, exp2)
+    if exp2 is None:
+        return None
+    out["cont"] = {"f": g, "data": D2[1], "tid": exp2}
+    return out
+
+
+def _expected_param(ctx: Context, cfg, tid_t, D):
+    """The parameter the received tid is compared with (== / !=), or None."""
+    st = strip_sites(tid_t)
+    names = set()
+    for n in cfg.nodes:
+        if n.kind != "test":
+            continue
+        c = _cmp(strip_sites(ctx.terms.of(cfg, n, n.exprs[0])))
+        if c is None or c[0] not in ("Eq", "NotEq"):
+            continue
+        for a, b in ((c[1], c[2]), (c[2], c[1])):
+            if a == st and b[0] == "param" and b != D:
+                names.add(b[1])
+    return names.pop() if len(names) == 1 else None
+
+
+def _tid_gate(ctx: Context, f, cfg, tid_t, exp: str) -> None:
+    ck = ctx.ck
+    R = "C17.G1"
+    st = strip_sites(tid_t)
+    nodes, eq, ne = _eq_gate(ctx, cfg, lambda t: strip_sites(t) == st, lambda t: t == ("param", exp))
+    ctx.must_pass(R, cfg, cfg.exit, "tid test [received tid == expected tid]", eq,
+                  desc=f"{f.name}: every normal exit passes the transaction-id test on its equal outcome")
+    for e in ne:
+        ck.check(R, _raises_only(cfg, e), f"{f.name}: a fragment with another transaction id can only raise",
+                 f"{ctx.fkey(f)}:tid-reject-falls-through", f"{f.name}: with a wrong transaction id a normal exit is reachable",
+                 ctx.loc(f, cfg.nodes[e[0]]), cfg.render_path(cfg.find_path(e[1], cfg.exit.id) or []))
+
+
+def _g1(ctx: Context) -> None:
+    _ble_layout(ctx, report=True)
+
+
+# ====================================================================== C17.G2
+def _g2(ctx: Context) -> None:
+    ck = ctx.ck
+    T = ctx.terms
+    R = "C17.G2"
+    lay = _ble_layout(ctx, report=False)
+    if lay is None:
+        ck.unknown(R, "decode_pdu / decode_pdu_continuation: layout not established (see C17.G1)", "")
+        return
+    d1, d2 = lay["first"], lay["cont"]
+    rf = ctx.func(f"{BLE_CLIENT}._read_pdu")
+    cfg = ctx.cfg(rf.qualname)
+    Q1, Q2 = d1["f"].qualname, d2["f"].qualname
+    calls = [(n, c, "first") for n, c in _calls_to(ctx, cfg, Q1)] + [(n, c, "cont") for n, c in _calls_to(ctx, cfg, Q2)]
+    reads = ctx.nodes_calling_name(cfg, "read_gatt_char")
+    ck.require_min(R, "_read_pdu: GATT reads", len(reads), 2)
+    ck.require_min(R, "_read_pdu: decode call sites", len(calls), 2)
+    loops = {id(_loop_of(n)): _loop_of(n) for n, _c in reads if _loop_of(n) is not None}
+    if len(loops) != 1:
+        ck.unknown(R, f"_read_pdu: expected one reassembly loop containing a GATT read, found {len(loops)}", rf.loc())
+        return
+    loop = list(loops.values())[0]
+
+    def in_loop(n):
+        return any(l is loop for l in _loops_of(n))
+
+    # ---- which decoder sees which fragment
+    firsts = [(n, c) for n, c, k in calls if k == "first" and not in_loop(n)]
+    conts = [(n, c) for n, c, k in calls if k == "cont" and in_loop(n)]
+    for n, c, k in calls:
+        if k == "first" and in_loop(n):
+            ck.violated(R, f"{ctx.fkey(rf)}:first-decoder-in-loop",
+                        "_read_pdu: a later fragment is decoded with decode_pdu - a continuation (control 0x80, 2-byte header, no status/length) is "
+                        "parsed as a 5-byte response header, so its first three body bytes are dropped and the flag is never checked",
+                        ctx.loc(rf, n), None, "every fragment after the first goes through decode_pdu_continuation")
+        if k == "cont" and not in_loop(n):
+            ck.violated(R, f"{ctx.fkey(rf)}:continuation-decoder-first",
+                        "_read_pdu: the first fragment is decoded with decode_pdu_continuation - status and expected length are never read",
+                        ctx.loc(rf, n), None, "the first fragment goes through decode_pdu")
+    if len(firsts) != 1 or len(conts) != 1:
+        if not any(k == "first" and in_loop(n) or k == "cont" and not in_loop(n) for n, _c, k in calls):
+            ck.unknown(R, f"_read_pdu: expected decode_pdu once before the loop and decode_pdu_continuation once inside, found {len(firsts)} / {len(conts)}", rf.loc())
+        return
+    (n1, c1), (n2, c2) = firsts[0], conts[0]
+    ck.holds(R, "_read_pdu: the first fragment goes through decode_pdu (before the loop), every later one through decode_pdu_continuation (inside)", ctx.loc(rf, n2))
+    t1, t2 = T.of(cfg, n1, c1), T.of(cfg, n2, c2)
+    site1, site2 = t1[4], t2[4]
+
+    # ---- tid: both decoders get the parameter that ble_request fills with the tid it also gave to _write_pdu
+    am1, am2 = _argmap(c1, d1["f"]), _argmap(c2, d2["f"])
+    if am1 is None or am2 is None or d1["tid"] not in am1 or d2["tid"] not in am2 or d1["data"] not in am1 or d2["data"] not in am2:
+        ck.unknown(R, "_read_pdu: decode call arguments cannot be mapped to parameters", ctx.loc(rf, n1))
+        return
+    tt1, tt2 = T.of(cfg, n1, am1[d1["tid"]]), T.of(cfg, n2, am2[d2["tid"]])
+    same = tt1[0] == "param" and tt1 == tt2
+    ck.check(R, same, "_read_pdu: both decoders are given the same tid parameter, unmodified", f"{ctx.fkey(rf)}:tid-args",
+             f"_read_pdu: decode_pdu expects tid {show(tt1, 50)} but decode_pdu_continuation expects {show(tt2, 50)}", ctx.loc(rf, n2))
+    if same:
+        _tid_chain(ctx, rf, tt1[1])
+
+    # ---- decrypt before decode
+    for n, c, am, d, which in ((n1, c1, am1, d1, "first"), (n2, c2, am2, d2, "continuation")):
+        v = T.of(cfg, n, am[d["data"]])
+        raws, decs, odd = [], [], []
+        for a in _alts(v):
+            if a[0] == "await" and a[1][0] == "call" and a[1][1][0] == "attr" and a[1][1][2] == "read_gatt_char":
+                raws.append(a)
+            elif (a[0] == "call" and a[1][0] == "attr" and a[1][2] == "decrypt" and len(a[2]) == 1 and a[2][0][0] == "await"
+                  and a[2][0][1][0] == "call" and a[2][0][1][1][0] == "attr" and a[2][0][1][1][2] == "read_gatt_char"):
+                decs.append(a)
+            else:
+                odd.append(a)
+        if odd or not (raws or decs):
+            ck.unknown(R, f"_read_pdu: the {which} decoder is fed {show(v, 140)}: neither a GATT read nor key.decrypt(<GATT read>)", ctx.loc(rf, n))
+            continue
+        srcs = {strip_sites(x) for x in raws} | {strip_sites(x[2][0]) for x in decs}
+        src_sites = {x[1][4] for x in raws} | {x[2][0][1][4] for x in decs}
+        rnodes = [rn for rn, rc in reads if T.of(cfg, rn, rc)[4] in src_sites]
+        if len(src_sites) != 1 or len(rnodes) != 1 or len(srcs) != 1:
+            ck.unknown(R, f"_read_pdu: the {which} decoder is fed from {len(src_sites)} different reads", ctx.loc(rf, n))
+            continue
+        rn = rnodes[0]
+        if (_loop_of(rn) is loop) != (which == "continuation"):
+            ck.unknown(R, f"_read_pdu: the {which} decoder is fed by a read on the other side of the loop", ctx.loc(rf, n))
+            continue
+        keys = {strip_sites(x[1][1]) for x in decs}
+        dec_nodes = []
+        for m in cfg.nodes:
+            for cc in ctx.calls(m):
+                if isinstance(cc.func, ast.Attribute) and cc.func.attr == "decrypt":
+                    t = T.of(cfg, m, cc)
+                    if len(t[2]) == 1 and t[2][0][0] == "await" and t[2][0][1][0] == "call" and t[2][0][1][4] in src_sites:
+                        dec_nodes.append(m)
+                        keys.add(strip_sites(t[1][1]))
+        gate = []
+        for m in dec_nodes:
+            gate += ctx.normal_out(cfg, m)
+        if len(keys) == 1:
+            _p, absent = _key_edges(ctx, cfg, list(keys)[0])
+            gate += absent
+        elif len(keys) > 1:
+            ck.unknown(R, f"_read_pdu: the {which} fragment is decrypted with {len(keys)} different keys", ctx.loc(rf, n))
+            continue
+        if not decs and dec_nodes:
+            ck.violated(R, f"{ctx.fkey(rf)}:{which}:decrypt-result-unused",
+                        f"_read_pdu: the {which} fragment is decrypted but the decoder is given the ciphertext {show(v, 80)}",
+                        ctx.loc(rf, n), None, f"the {which} fragment is decrypted before it is decoded")
+            continue
+        ctx.must_pass(R, cfg, n, f"key.decrypt({which} fragment) [or no key]", gate, start=rn.id,
+                      desc=f"_read_pdu: the {which} fragment reaches its decoder only through decrypt (normal outcome) or with no key")
+
+    # ---- accumulate exactly while len(data) < expected_length
+    i_st, i_len, i_body = d1["pos"]
+
+    def first_proj(t, k):
+        p = _proj(t)
+        return p is not None and p[0][0] == "call" and len(p[0]) == 5 and p[0][4] == site1 and p[1] == k
+
+    def is_cont(t):
+        return t[0] == "call" and len(t) == 5 and t[4] == site2
+
+    def acc(t, depth=0):
+        """'ok' | 'order' | 'no':  ACC := first body | loop-carried | phi(ACC..) | ACC + continuation body"""
+        if depth > 8:
+            return "no"
+        if first_proj(t, i_body) or t[0] == "loopvar":
+            return "ok"
+        if t[0] == "phi":
+            rs = [acc(x, depth + 1) for x in t[1]]
+            return "no" if "no" in rs else ("order" if "order" in rs else "ok")
+        if t[0] == "add":
+            ps = list(t[1])
+            kinds = ["c" if is_cont(p) else acc(p, depth + 1) for p in ps]
+            if "no" in kinds:
+                return "no"
+            if kinds[0] in ("ok",) and all(k == "c" for k in kinds[1:]) and len(kinds) >= 2:
+                return "ok"
+            return "order"
+        return "no"
+
+    tests = []
+    for n in cfg.nodes:
+        if n.kind != "test":
+            continue
+        c = _cmp(T.of(cfg, n, n.exprs[0]))
+        if c is None:
+            continue
+        op, l, r = c
+        if first_proj(l, i_len) and _is_call_to(r, "len"):
+            op, l, r = _FLIP.get(op), r, l
+        if op is None or not (_is_call_to(l, "len") and len(l[2]) == 1 and first_proj(r, i_len)):
+            continue
+        tests.append((n, op, l[2][0]))
+    if not tests:
+        ck.unknown(R, "_read_pdu: no test compares len(<accumulated body>) with the expected length returned by decode_pdu - loop condition not recognised", rf.loc())
+        return
+    cont_edges, stop_edges = [], []
+    for n, op, a in tests:
+        shape = acc(a)
+        if shape == "no":
+            ck.unknown(R, f"_read_pdu: the length test measures {show(a, 120)}, not first body + continuation bodies", ctx.loc(rf, n))
+            return
+        ck.check(R, shape == "ok", "_read_pdu: the measured buffer is the first body followed by the continuation bodies in arrival order",
+                 f"{ctx.fkey(rf)}:accumulate-order", f"_read_pdu: continuation bodies are not appended behind what was received before: {show(a, 120)}", ctx.loc(rf, n))
+        lab = {}
+        for x in ("T", "F"):
+            for e in ctx.edges(cfg, n, x):
+                lab[x] = n2.id in cfg.reachable_from(e[1], avoid_nodes=[n.id])
+        if sorted(lab.values()) != [False, True]:
+            ck.unknown(R, "_read_pdu: cannot tell which outcome of the length test reads another fragment", ctx.loc(rf, n))
+            return
+        cont_lab = "T" if lab["T"] else "F"
+        reads_more_when = op if cont_lab == "T" else {"Lt": "GtE", "GtE": "Lt", "Gt": "LtE", "LtE": "Gt", "Eq": "NotEq", "NotEq": "Eq"}[op]
+        why = {
+            "LtE": "with `<=` a complete body (len == expected) still waits for a fragment that never comes",
+            "NotEq": "with `!=` an accessory that sends more than announced is read forever",
+            "Gt": "the comparison is inverted: nothing is read when data is missing", "GtE": "the comparison is inverted",
+            "Eq": "another fragment is read exactly when the body is complete",
+        }
+        ck.check(R, reads_more_when == "Lt", "_read_pdu: another fragment is read exactly while len(data) < expected_length",
+                 f"{ctx.fkey(rf)}:loop-operator",
+                 f"_read_pdu: another fragment is read while len(data) {reads_more_when} expected_length - {why.get(reads_more_when, '')}", ctx.loc(rf, n))
+        if reads_more_when == "Lt":
+            cont_edges += ctx.edges(cfg, n, cont_lab)
+            stop_edges += ctx.edges(cfg, n, "F" if cont_lab == "T" else "T")
+    if not cont_edges:
+        return
+    ctx.must_pass(R, cfg, n2, "length test [len(data) < expected_length]", cont_edges, start=n1.id,
+                  desc="_read_pdu: a continuation fragment is only read while data is missing")
+    p = _cycle_avoiding(cfg, n2, avoid_edges=cont_edges)
+    ck.check(R, p is None, "_read_pdu: the length test is repeated before every further fragment", f"{ctx.fkey(rf)}:loop-test-every-cycle",
+             "_read_pdu: a second continuation fragment can be read without re-testing the length", ctx.loc(rf, n2), cfg.render_path(p) if p else None)
+    rets = [n for n in cfg.nodes if n.kind == "return"]
+    for r in rets:
+        if r.id not in cfg.reachable_from(n1.id):
+            continue
+        ctx.must_pass(R, cfg, r, "length test [len(data) >= expected_length]", stop_edges, start=n1.id,
+                      desc="_read_pdu: the result is returned only when the announced length has arrived")
+        t = T.of(cfg, r, r.exprs[0]) if r.exprs else ("const", None)
+        ok = t[0] == "tuple" and len(t[1]) == 2 and first_proj(t[1][0], i_st) and acc(t[1][1]) == "ok"
+        if not ok and not (t[0] == "tuple" and len(t[1]) == 2):
+            ck.unknown(R, f"_read_pdu: return value {show(t, 100)} is not (status, body)", ctx.loc(rf, r))
+            continue
+        ck.check(R, ok, "_read_pdu: returns the status of the first fragment and the reassembled body", f"{ctx.fkey(rf)}:result",
+                 f"_read_pdu: returns {show(t, 140)} instead of (status of the first fragment, reassembled body)", ctx.loc(rf, r))
+
+
+def _tid_chain(ctx: Context, rf, read_tid_param: str) -> None:
+    """ble_request gives one and the same tid term to _write_pdu (-> encode_pdu header) and to _read_pdu."""
+    ck = ctx.ck
+    T = ctx.terms
+    R = "C17.G2"
+    m = _encoder_model(ctx)
+    wf = ctx.func(f"{BLE_CLIENT}._write_pdu")
+    wcfg = ctx.cfg(wf.qualname)
+    bf = ctx.func(f"{BLE_CLIENT}.ble_request")
+    bcfg = ctx.cfg(bf.qualname)
+    if m["tid_param"] is None:
+        ck.unknown(R, "encode_pdu: tid position of the request header not established (see C17.B1)", m["f"].loc())
+        return
+    es = _calls_to(ctx, wcfg, m["f"].qualname)
+    ws = _calls_to(ctx, bcfg, wf.qualname)
+    rs = _calls_to(ctx, bcfg, rf.qualname)
+    if len(es) != 1 or len(ws) != 1 or len(rs) != 1:
+        ck.unknown(R, f"ble_request/_write_pdu: expected one call each of encode_pdu, _write_pdu, _read_pdu; found {len(es)}, {len(ws)}, {len(rs)}", bf.loc())
+        return
+    ea = _argmap(es[0][1], m["f"])
+    wa = _argmap(ws[0][1], wf)
+    ra = _argmap(rs[0][1], rf)
+    if ea is None or wa is None or ra is None or m["tid_param"] not in ea or read_tid_param not in ra:
+        ck.unknown(R, "ble_request: tid arguments cannot be mapped to parameters", bf.loc())
+        return
+    wt = T.of(wcfg, es[0][0], ea[m["tid_param"]])
+    if wt[0] != "param" or wt[1] not in wa:
+        ck.unknown(R, f"_write_pdu: the tid given to encode_pdu is {show(wt, 60)}, not a parameter passed through", ctx.loc(wf, es[0][0]))
+        return
+    a, b = T.of(bcfg, ws[0][0], wa[wt[1]]), T.of(bcfg, rs[0][0], ra[read_tid_param])
+    ck.check(R, a == b and a[0] != "const", "ble_request: the tid packed into the request header is the tid both response decoders expect (one value, drawn once)",
+             f"{ctx.fkey(bf)}:request-tid", f"ble_request: request is written with tid {show(a, 60)} but the response is checked against {show(b, 60)}", ctx.loc(bf, rs[0][0]))
